@@ -75,6 +75,11 @@ def build(inp):
         from thejoker import RVData
         scale = "utc" if layout.endswith("-utc") else "tcb"
         datas[0] = RVData(t=d0.t, rv=d0.rv, rv_err=d0.rv_err, t_ref=Time(d0.t.tcb.mjd.min() + shift, format="mjd", scale=scale))
+    if layout == "single-precise":
+        # m/s-level precision (0.03 - 0.15 m/s ... expressed in the data unit): variances far below any "small number" in km/s
+        from thejoker import RVData
+        d0 = datas[0]
+        datas[0] = RVData(t=d0.t, rv=d0.rv, rv_err=d0.rv_err * 1e-4)
     data = datas[0] if inp["no"] == 0 else datas
     return prior, data
 
